@@ -380,6 +380,22 @@ func c07Check(r *fw.R, text string, cfg c07Cfg, want func(res c07Res, fail func(
 		}
 	} else if n := strings.Count(strings.ToUpper(text), "$GENERATE"); res.nrec > 65536*n {
 		fail("generate-records", fmt.Sprintf("%d records from %d $GENERATE directives", res.nrec, n))
+	} else if bound := uint64(8192*len(text)+128<<10)*uint64(res.nrec+1) + uint64(len(text))*uint64(len(text)); res.alloc > bound {
+		// a $GENERATE multiplies its line by the number of records it yields, not by anything else in the text
+		// (a field width in a ${…} modifier, say). What is measured is the total allocated, not the live heap: the
+		// directive's line is put together token by token with string concatenation, which allocates up to n²/2
+		// octets in total for a line of n octets while holding only n at a time — hence the quadratic term.
+		min := ^uint64(0)
+		for i := 0; i < 3; i++ {
+			var p2 []string
+			a := fw.ExactAlloc(func() { c07Run(text, cfg, &p2) })
+			if a < min {
+				min = a
+			}
+		}
+		if min > bound {
+			fail("alloc/generate", fmt.Sprintf("one parse allocated %d bytes for %d records (minimum of 3 exact measurements), bound %d", min, res.nrec, bound))
+		}
 	}
 	// definite lexical problems must be reported
 	if res.err == nil {
